@@ -18,6 +18,7 @@ canon = z3.Function("canon", TupS, TupS)         # tuple(sorted(k))
 tfilter_ne = z3.Function("tfilter_ne", TupS, I, TupS)  # tuple(n for n in k if n != x)
 tdiff = z3.Function("tdiff", TupS, TupS, I)      # Skolem witness: an element on which two strict tuples differ
 tsingle = z3.Function("tsingle", I, TupS)        # (x,)
+twith = z3.Function("twith", TupS, I, TupS)      # the canonical tuple with the members of k and x (specification only)
 EMPTY_TUP = z3.Const("EMPTY_TUP", TupS)          # ()
 
 EMPTY_META = z3.Const("EMPTY_META", MetaS)
@@ -70,6 +71,12 @@ THEORY = {
     "tfilter_strict": FA([_k, _x], z3.Implies(strict(_k), strict(tfilter_ne(_k, _x))), tfilter_ne(_k, _x)),
     "tfilter_len": FA([_k, _x], z3.Implies(distinct_t(_k),
                       tlen(tfilter_ne(_k, _x)) == tlen(_k) - z3.If(tmem(_k, _x), 1, 0)), tfilter_ne(_k, _x)),
+    # ---- canonical tuple k + {x} (inverse of tfilter_ne on canonical tuples)
+    "twith_def": FA([_k, _x], z3.Implies(z3.And(strict(_k), z3.Not(tmem(_k, _x))),
+                    z3.And(strict(twith(_k, _x)), tlen(twith(_k, _x)) == tlen(_k) + 1, tfilter_ne(twith(_k, _x), _x) == _k)), twith(_k, _x)),
+    "twith_mem": FA([_k, _x, _n], z3.Implies(z3.And(strict(_k), z3.Not(tmem(_k, _x))), tmem(twith(_k, _x), _n) == z3.Or(tmem(_k, _n), _n == _x)),
+                    tmem(twith(_k, _x), _n)),
+    "twith_inv": FA([_k, _x], z3.Implies(z3.And(strict(_k), tmem(_k, _x)), twith(tfilter_ne(_k, _x), _x) == _k), tfilter_ne(_k, _x)),
     # ---- (x,)
     "tsingle": FA([_x], z3.And(tlen(tsingle(_x)) == 1, strict(tsingle(_x)), tat(tsingle(_x), 0) == _x), tsingle(_x)),
     "tsingle_mem": FA([_x, _n], tmem(tsingle(_x), _n) == (_n == _x), tmem(tsingle(_x), _n)),
